@@ -9,7 +9,7 @@
         -> "tp"   one state per tensor-product case (2-D / 3-D, mixed degrees) x affine geometry matrix.
    Invariants (SymOK / AsymOK / TpOK): the local Taylor pieces reproduce the B-splines; symmetry; sum of the mass matrix
    = measure (or integral of the weight); forms with a derivative annihilate constants; integration by parts; rank of the
-   stiffness matrix = n - 1; independence of the quadrature grid; consistency with the prolongation matrix; Kronecker
+   stiffness matrix = n - 1 (elimination modulo a prime, a lower bound, plus the exact null vector); independence of the quadrature grid; consistency with the prolongation matrix; Kronecker
    structure: sum M = |det A| |Omega^|, K 1 = 0, symmetric div-div.                                                   *)
 EXTENDS Galerkin1D, TLC, Emit
 
@@ -111,7 +111,7 @@ SymOK ==
      /\ \A m \in 1..Len(Weights) : /\ MatSum(WM[m]) = Integral1D(kv, Weights[m]) /\ IsSymmetric(WM[m])
      /\ p >= 1 =>
           /\ \A i \in 1..nn : Sign(F[2][2][i][i]) > 0
-          /\ Rank(F[2][2]) = nn - 1                                              \* kernel of K = constants
+          /\ RankModP(F[2][2]) = nn - 1                                          \* with K 1 = 0: kernel of K = constants
           /\ \A m \in 1..Len(Weights) : IsSymmetric(WK[m]) /\ RowSumsZero(WK[m])
           \* integration by parts: int B_i' B_j + int B_i B_j' = [B_i B_j] at the two ends
           /\ \A i \in 1..nn : \A j \in 1..nn :
@@ -170,7 +170,7 @@ TpOK ==
      /\ Len(M) = NN /\ IsSymmetric(M) /\ IsSymmetric(K)
      /\ MatSum(M) = Mul(AbsR(Det(A)), R(vol))                                      \* sum M = |Omega|
      /\ RowSumsZero(K)                                                             \* K 1 = 0
-     /\ ((\A a \in 1..d : C.ps[a] >= 1) /\ NN <= 9 /\ sel = 1) => Rank(K) = NN - 1      \* kernel = constants (small cases)
+     /\ (\A a \in 1..d : C.ps[a] >= 1) => RankModP(K) = NN - 1                        \* with K 1 = 0: kernel = constants
      /\ dd => \A cv \in 1..d : \A cu \in 1..d : DD[cv][cu] = MatT(DD[cu][cv])
      /\ SumSeq(LV) = ival
      /\ Emit("TP", [id |-> deg, geo |-> sel, kvs |-> C.kvs, ps |-> C.ps, A |-> A, N |-> NN,
